@@ -55,7 +55,9 @@ def _coords(st):
     meth = [v[1] for k, v in facts.items() if v[0] == "nc" and "@method" in repr(k)]
     methods = set(meth[0]) if meth else set(METHODS)
     status = iv_of(st, lambda k: "@status" in repr(k) and k[0] == "proj", ((0, 65535),))
-    ver = iv_of(st, lambda k: "@version" in repr(k) and k[0] == "proj", ((0, 255),))
+    # the version / header coordinates are those of the *response* (the head parser's result), never the request's
+    RESP = "try_parse_response"
+    ver = iv_of(st, lambda k: "@version" in repr(k) and k[0] == "proj" and RESP in repr(k), ((0, 255),))
     http10 = set()
     if iv_contains(ver, 1):
         http10.add(True)
@@ -64,7 +66,7 @@ def _coords(st):
 
     def header(name, classify_ok):
         get = [v for k, v in facts.items() if k[0] == "discr" and k[1][0] == "app" and "HeaderMap" in k[1][1]
-               and contains_bytes(k[1], name) and "to_str" not in repr(k[1])]
+               and contains_bytes(k[1], name) and "to_str" not in repr(k[1]) and RESP in repr(k[1])]
         if not get:
             return None
         if get[0][1] == frozenset(["None"]):
